@@ -307,6 +307,42 @@ pub fn op_rd(args: &[&str]) -> String {
     read_into(args[0], unhex(args[1]))
 }
 
+/// rw <template> <input>: read the bytes into the template with the real reader, write the message read with the real
+/// writer, compare what was written (followed by what the reader left) with the input
+pub fn op_rw(args: &[&str]) -> String {
+    let tmpl = args[0].to_string();
+    let input = unhex(args[1]);
+    let total = input.len();
+    SPUN.store(false, std::sync::atomic::Ordering::SeqCst);
+    let r = guarded(move || {
+        let mut t = build(&tmpl);
+        let mut cur = Watch { cur: Cursor::new(input.clone()), calls: 0, limit: 10_000 + 64 * total };
+        let res = t.read(&mut cur);
+        let consumed = std::cmp::min(cur.cur.position() as usize, total);
+        match res {
+            Ok(()) => {
+                let mut s = String::new();
+                dump(t.visit(), &mut s);
+                let len = t.length();
+                let mut c = Cursor::new(Vec::new());
+                match t.write(&mut c) {
+                    Ok(()) => {
+                        let mut w = c.into_inner();
+                        let wl = w.len();
+                        let wh = hex(&w);
+                        w.extend_from_slice(&input[consumed..]);
+                        format!("ok consumed={} val={} len={} w={} same={}", consumed, s, len, wh, if w == input && wl == consumed { 1 } else { 0 })
+                    }
+                    Err(e) => format!("ok consumed={} val={} len={} w=err:{}", consumed, s, len, err_name(&e)),
+                }
+            }
+            Err(e) => format!("err:{} consumed={}", err_name(&e), consumed),
+        }
+    });
+    if SPUN.load(std::sync::atomic::Ordering::SeqCst) { return "spin".to_string(); }
+    r.unwrap_or_else(|| "panic".to_string())
+}
+
 // ------------------------------------------------------------------ PER
 fn res<T, F: FnOnce() -> RdpResult<T>>(f: F, show: &dyn Fn(T) -> String) -> String {
     match guarded(f) {
@@ -338,6 +374,31 @@ fn rt(w: (String, Option<Vec<u8>>), reader: &dyn Fn(Vec<u8>) -> String) -> Strin
     match w {
         (s, None) => format!("w={}", s),
         (s, Some(mut b)) => { b.push(0xaa); format!("w={} r={}", s, reader(b)) }
+    }
+}
+
+/// decode, then encode: `r=<read outcome>` and, when the read succeeded, ` w=<bytes written for the value read> same=<0|1>`
+/// (same = written bytes followed by what the reader left are the input)
+fn dw<T: Clone, R: FnOnce(&mut Cursor<Vec<u8>>) -> RdpResult<T>, W: FnOnce(T, &mut Cursor<Vec<u8>>) -> RdpResult<()>>(
+    input: Vec<u8>, reader: R, writer: W, show: &dyn Fn(T) -> String) -> String {
+    let n = input.len();
+    let inp = input.clone();
+    match guarded(move || { let mut c = Cursor::new(inp); let r = reader(&mut c); (r, std::cmp::min(c.position() as usize, n)) }) {
+        None => "r=panic".to_string(),
+        Some((Err(e), _)) => format!("r=err:{}", err_name(&e)),
+        Some((Ok(v), pos)) => {
+            let v2 = v.clone();
+            let head = format!("r=ok:{}:rest={}", show(v), n - pos);
+            match guarded(move || { let mut c = Cursor::new(Vec::new()); writer(v2, &mut c).map(|_| c.into_inner()) }) {
+                None => format!("{} w=panic", head),
+                Some(Err(e)) => format!("{} w=err:{}", head, err_name(&e)),
+                Some(Ok(mut w)) => {
+                    let wh = hex(&w);
+                    w.extend_from_slice(&input[pos..]);
+                    format!("{} w={} same={}", head, wh, if w == input { 1 } else { 0 })
+                }
+            }
+        }
     }
 }
 
@@ -389,6 +450,25 @@ pub fn op_per(args: &[&str]) -> String {
             let s = unhex(a[0]); let m = num(a[1]) as usize; let s2 = s.clone();
             rt(wr(move |c| per::write_octet_stream(&s, m, c)), &|b| { let s3 = s2.clone(); rd(b, move |c| per::read_octet_stream(&s3, m, c), &unit_str) })
         }
+        "dwlen" => dw(unhex(a[0]), |c| per::read_length(c), |v, c| per::write_length(v)?.write(c), &show_u16),
+        "dwint" => dw(unhex(a[0]), |c| per::read_integer(c), |v, c| per::write_integer(v, c), &show_u32),
+        "dwint16" => { let m = num(a[0]) as u16; dw(unhex(a[1]), move |c| per::read_integer_16(m, c), move |v, c| per::write_integer_16(v, m, c), &show_u16) }
+        "dwoid" => {
+            // the reader compares with an expected identifier; when it answers true, that identifier is written back
+            let o = unhex(a[0]); let o2 = o.clone();
+            dw(unhex(a[1]), move |c| per::read_object_identifier(&o, c),
+               move |v, c| if v { per::write_object_identifier(&o2, c) } else { Ok(()) }, &show_bool)
+        }
+        "dwoct" => {
+            let s = unhex(a[0]); let s2 = s.clone(); let m = num(a[1]) as usize;
+            dw(unhex(a[2]), move |c| per::read_octet_stream(&s, m, c), move |_, c| per::write_octet_stream(&s2, m, c), &unit_str)
+        }
+        "dwnum" => { let m = num(a[0]) as usize; dw(unhex(a[1]), move |c| per::read_numeric_string(m, c), move |v: Vec<u8>, c| per::write_numeric_string(&v, m, c), &show_vec) }
+        "dwpad" => { let n = num(a[0]) as usize; dw(unhex(a[1]), move |c| per::read_padding(n, c), move |_, c| per::write_padding(n, c), &unit_str) }
+        "dwchoice" => dw(unhex(a[0]), |c| per::read_choice(c), |v, c| per::write_choice(v, c), &show_u8),
+        "dwsel" => dw(unhex(a[0]), |c| per::read_selection(c), |v, c| per::write_selection(v, c), &show_u8),
+        "dwnset" => dw(unhex(a[0]), |c| per::read_number_of_set(c), |v, c| per::write_number_of_set(v, c), &show_u8),
+        "dwenum" => dw(unhex(a[0]), |c| per::read_enumerates(c), |v, c| { per::write_enumerates(v)?.write(c) }, &show_u8),
         "wchoice" => { let n = num(a[0]) as u8; wr(move |c| per::write_choice(n, c)).0 }
         "wsel" => { let n = num(a[0]) as u8; wr(move |c| per::write_selection(n, c)).0 }
         "wnset" => { let n = num(a[0]) as u8; wr(move |c| per::write_number_of_set(n, c)).0 }
